@@ -1,10 +1,36 @@
 (* C06 — Picture headers are parsed field-for-field as H.263 and Sorenson define them. *)
-From H263V Require Import base.Prelude model.Types model.Reader model.Header proofs.HeaderLemmas.
+From H263V Require Import base.Prelude model.Types model.Reader model.Header spec.SpecHeader
+  proofs.HeaderLemmas proofs.HeaderRoundTrip.
 
-(* the temporal reference of every parsed header, Sorenson or standard, with or without the two
-   extension bits of a custom picture clock, lies in 0..1023 *)
+(* Sorenson Spark: for EVERY combination of version, temporal reference, size code (8- and 16-bit custom
+   sizes, five fixed sizes, reserved), picture type, deblocking flag, quantizer and extra-information bytes,
+   wherever the header starts and whatever follows it: the parser reports exactly the encoded values and
+   leaves exactly the bits that follow the header. *)
+Theorem C06_sorenson_roundtrip : forall h prev scal rest pos,
+  wf_sorenson h ->
+  exists pos', decode_picture (mkOpts true scal) prev (mkReader (enc_sorenson h ++ rest) pos)
+               = Ok (Some (picture_of_sorenson h), mkReader rest pos').
+Proof. exact sorenson_roundtrip. Qed.
+
+(* Baseline H.263 (PTYPE without PLUSPTYPE): every combination of TR, split-screen / document-camera /
+   freeze-release flags, source format 1..6, coding type, UMV / SAC / AP / PB flags, PQUANT, CPM with PSBI,
+   TRB and DBQUANT (PB frames) and PEI bytes. *)
+Theorem C06_baseline_roundtrip : forall h prev scal rest pos,
+  wf_std h -> prev_compatible prev (Some (std_format (t_srcfmt h))) -> scal = false ->
+  exists pos', decode_picture (mkOpts false scal) prev (mkReader (enc_std h ++ rest) pos)
+               = Ok (Some (picture_of_std h), mkReader rest pos').
+Proof. exact std_roundtrip. Qed.
+
+(* the temporal reference of every parsed header lies in 0..1023 *)
 Theorem C06_tr_range : forall o prev r p r',
   decode_picture o prev r = Ok (Some p, r') -> 0 <= temporal_reference p < 1024.
 Proof. exact decode_picture_tr. Qed.
 
+(* non-vacuity: a concrete Sorenson header (version 1, TR 200, 17x9, disposable, deblock, q 31, two PEI bytes) *)
+Example C06_example :
+  wf_sorenson (mkSor 1 200 (SzCustom8 17 9) 2 true 31 [7; 255]).
+Proof. unfold wf_sorenson, wf_sor_size, byte_ok. cbn. repeat split; try lia. repeat constructor; lia. Qed.
+
+Print Assumptions C06_sorenson_roundtrip.
+Print Assumptions C06_baseline_roundtrip.
 Print Assumptions C06_tr_range.
